@@ -167,7 +167,10 @@ def run_verus_unit(res, unit_name, src_root, allow):
     info['hint_anchors_lost'] = u.anchors_lost
     info['assumed_contracts'] = u.assumed
     for a in u.assumed:
-        res.trusted.append('%s: ASSUMED contract on %s (%s) - body not verified' % (unit_name, a['fn'], a['file']))
+        if a.get('proved_in'):
+            res.trusted.append('%s: contract of %s used as callee contract here; it is PROVED on the real body in unit %s (same contract text, shared include)' % (unit_name, a['fn'], a['proved_in']))
+        else:
+            res.trusted.append('%s: ASSUMED contract on %s (%s) - body not verified' % (unit_name, a['fn'], a['file']))
     info['functions'] = [f['fn'] for f in u.functions]
 
 
